@@ -1,7 +1,7 @@
 From Coq Require Extraction.
 From Coq Require Import ExtrOcamlBasic.
 From NV Require Import Base.Witness Bcf.Ints Bcf.Typed Bcf.Genotype Bcf.Strings Bcf.StringMap Bcf.Record Bcf.RecordTyped.
-From NV Require Import Vcf.Values Vcf.Line Bcf.Bridge.
+From NV Require Import Vcf.Values Vcf.Line Bcf.Bridge Bcf.Lazy.
 Extraction "model.ml" nv_types_witness
   enc_info_int dec_info_int enc_info_ints dec_info_ints
   enc_info_float dec_info_float enc_info_floats dec_info_floats
@@ -14,4 +14,5 @@ Extraction "model.ml" nv_types_witness
   enc_fmt_strings dec_fmt_strings enc_fmt_str_arrays dec_fmt_str_arrays
   build_strings build_contigs get_index get_index_of no_clobber_from PASS
   enc_record enc_record_w enc_site enc_index enc_indices dec_index dec_indices dec_frame dec_head dec_record dec_fields split_typed dec_record_typed dec_flag
-  bcf_write bcf_read bcf_read_into bcf_special content write_line read_eager_text.
+  bcf_write bcf_read bcf_read_into bcf_special content write_line read_eager_text
+  lazy_read ik_of fk_of.
